@@ -134,8 +134,10 @@ def run(ctx):
     ctx.table("ural.data.ISO_3166_1_COUNTRIES_ALPHA_2")
     bad = sorted(x for x in iso if not (isinstance(x, str) and len(x) == 2 and x.isalpha() and x == x.upper()))
     ctx.ob("R3", "iso-table/hygiene", not bad and len(iso) >= 240, "ISO_3166_1_COUNTRIES_ALPHA_2 has %d entries, malformed: %r" % (len(iso), bad[:5]), repo.mod("data").site(repo.const_node("ural.data", "ISO_3166_1_COUNTRIES_ALPHA_2")))
-    for c in ("FR", "US", "DE", "GB", "BR", "PT", "CN"):
-        ctx.ob("R3", "iso-table/%s" % c, c in iso, "country code %s disappeared from the ISO table" % c, repo.mod("data").site(repo.const_node("ural.data", "ISO_3166_1_COUNTRIES_ALPHA_2")))
+    import json as _json, os as _os
+    pinned = _json.load(open(_os.path.join(_os.path.dirname(_os.path.dirname(_os.path.dirname(_os.path.abspath(__file__)))), "spec", "iso3166_alpha2.json")))["codes"]
+    for c in pinned:
+        ctx.ob("R3", "iso-table/%s" % c, c in iso, "country code %s disappeared from the ISO table: '%s.lemonde.fr' keeps its country label" % (c, c.lower()), repo.mod("data").site(repo.const_node("ural.data", "ISO_3166_1_COUNTRIES_ALPHA_2")), witness="https://%s.lemonde.fr/path" % c.lower())
 
     ctx.rule("R4", "host chain of fingerprint_url: the host of normalize_url passes the language strip on every path; with strip_suffix it passes split_suffix(...)[0], which receives the language-stripped host (language strip first)")
     leaf = lambda x: x[0] == "attr" and x[2] == "hostname" and is_norm_call(x[1])
